@@ -545,6 +545,27 @@ pub fn main(a: &Args) {
                     }
                 }
             }
+            // the same directory with one entry excluded (--exclude matches parts of the path): every other grammar
+            // exactly as alone, whatever the order in which the file system lists the entries
+            for (xi, (xn, _, _)) in picked.iter().enumerate() {
+                let dirx = base.join(format!("dirmode_x{}", xi));
+                let _ = std::fs::remove_dir_all(&dirx);
+                std::fs::create_dir_all(dirx.join("sub")).unwrap();
+                for (i, (n, t, _)) in picked.iter().enumerate() {
+                    let d = if i % 2 == 0 { dirx.clone() } else { dirx.join("sub") };
+                    std::fs::write(d.join(format!("{}.rustemo", n)), t).unwrap();
+                }
+                let _ = Command::new(&rcomp).args(flags.argv()).arg("--exclude").arg(format!("{}.rustemo", xn)).arg(&dirx).env_remove("OUT_DIR").env_remove("CARGO_MANIFEST_DIR").output();
+                for (i, (n, t, single)) in picked.iter().enumerate() {
+                    let d = if i % 2 == 0 { dirx.clone() } else { dirx.join("sub") };
+                    rep.count("dir_mode_exclude_pairs", 1);
+                    let a = std::fs::read(d.join(format!("{}.rs", n))).ok();
+                    let b = if i == xi { None } else { std::fs::read(single.join(format!("{}.rs", n))).ok() };
+                    if a != b {
+                        rep.violation("C17", &format!("dirmode-exclude:{}:{}", fnv(t), xi), &format!("rcomp --exclude {}.rustemo over a directory: parser of {} written: {}, expected: {}{}", xn, n, a.is_some(), b.is_some(), if a.is_some() && b.is_some() { " (bytes differ from the grammar alone)" } else { "" }), json!({"grammar": t, "argv": flags.argv(), "excluded": xn}));
+                    }
+                }
+            }
         }
     }
     let _ = std::fs::remove_dir_all(&base);
